@@ -141,7 +141,7 @@ impl<'a> Gen<'a> {
                     format!("{} {} {}", self.expr(Ty::Num, d), op, self.expr(Ty::Num, d))
                 }
                 5 => format!("({} / 2)", self.expr(Ty::Num, d)),
-                6 => format!("({} % 3)", self.expr(Ty::Num, d)),
+                6 => format!("({} % {})", self.expr(Ty::Num, d), self.rng.pick(&["3", "-3", "2", "0.5", "-2"])),
                 7 => format!("#{}", self.paren_if_needed(Ty::Str, d)),
                 8 => format!("-{}", self.paren_if_needed(Ty::Num, d)),
                 9 => format!("({})", self.expr(Ty::Num, d)),
@@ -276,7 +276,7 @@ impl<'a> Gen<'a> {
         match ty {
             Ty::Num => {
                 if self.f.foldable && self.rng.chance(1, 4) {
-                    (*self.rng.pick(&["1 + 2", "2 * 3", "#\"abc\"", "(4 - 1)", "10 / 4", "7 % 3", "2 ^ 3", "\"3\" + 1", "-(-2)"])).to_owned()
+                    (*self.rng.pick(&["1 + 2", "2 * 3", "#\"abc\"", "(4 - 1)", "10 / 4", "7 % 3", "2 ^ 3", "\"3\" + 1", "-(-2)", "7 % -3", "-7 % 3", "5.5 % -2", "-4 % 2", "7 // -2", "-7 // 2", "2 ^ -1", "1 / 4", "0.1 + 0.2 > 0.3", "10 - 2 - 3", "2 ^ 3 ^ 2", "-2 ^ 2"])).to_owned()
                 } else if self.rng.chance(1, 8) {
                     "ext_n()".into()
                 } else if self.f.removal && self.rng.chance(1, 8) {
@@ -475,7 +475,24 @@ impl<'a> Gen<'a> {
                 self.line("end");
             }
             16 | 17 if depth > 0 => {
-                // bounded numeric for
+                // bounded numeric for; sometimes the header reads an outer local that the loop variable shadows
+                if self.rng.chance(1, 4) {
+                    let hi = 1 + self.rng.below(3);
+                    let name = (*self.rng.pick(NAMES)).to_owned();
+                    self.line(&format!("local {} = {}", name, hi));
+                    self.declare(&name, Ty::Num);
+                    match self.rng.below(3) {
+                        0 => self.line(&format!("for {} = 1, {} do", name, name)),
+                        1 => self.line(&format!("for {} = {}, 3 do", name, name)),
+                        _ => self.line(&format!("for {} = 3, 1, -{} do", name, name)),
+                    }
+                    self.indent += 1;
+                    self.line(&format!("ext_p(\"loop\", {})", name));
+                    self.indent -= 1;
+                    self.line("end");
+                    self.line(&format!("ext_p({})", name));
+                    return;
+                }
                 let v = self.fresh(Ty::Num);
                 let hi = 1 + self.rng.below(3);
                 self.line(&format!("for {} = 1, {} do", v, hi));
@@ -583,7 +600,7 @@ impl<'a> Gen<'a> {
                 // object with methods, method calls
                 let t = self.fresh(Ty::Tbl);
                 self.line(&format!("local {} = {{ count = 0, inner = {{}} }}", t));
-                match self.rng.below(3) {
+                match self.rng.below(5) {
                     0 => {
                         self.line(&format!("function {}:bump(by)", t));
                         self.indent += 1;
@@ -600,6 +617,20 @@ impl<'a> Gen<'a> {
                         self.indent -= 1;
                         self.line("end");
                         self.line(&format!("ext_p({}.inner.make(4)[1])", t));
+                    }
+                    3 => {
+                        self.line(&format!("function {}.inner:get(a)", t));
+                        self.indent += 1;
+                        self.line("return self, a");
+                        self.indent -= 1;
+                        self.line("end");
+                        self.line(&format!("local reg = {{ {}.inner, {}.inner }}", t, t));
+                        match self.rng.below(4) {
+                            0 => self.line("ext_p(select(2, (reg[ext_n(1) > 100 and 2 or 1]):get(5)))"),
+                            1 => self.line(&format!("ext_p(select(2, ({}.inner):get(6)))", t)),
+                            2 => self.line("ext_p(select(2, reg[ext_n(2) > 100 and 2 or 1]:get(7)))"),
+                            _ => self.line(&format!("ext_p(select(2, ({}).inner:get(ext_n(3))))", t)),
+                        }
                     }
                     _ => {
                         self.line(&format!("function {}.inner:get()", t));
@@ -643,7 +674,18 @@ impl<'a> Gen<'a> {
                         let e = self.expr(Ty::Num, 1);
                         self.line(&format!("local unused = {}", e));
                     }
-                    4 => self.line("local unused2 = ext_n()"),
+                    4 => match self.rng.below(4) {
+                        0 => self.line("local unused2 = ext_n()"),
+                        1 => {
+                            let v = self.var_of(Ty::Num).unwrap_or_else(|| "ext_n(0)".to_owned());
+                            self.line(&format!("local unused4 = {} or ext_n(9)", v))
+                        }
+                        2 => {
+                            let v = self.var_of(Ty::Bool).unwrap_or_else(|| "ext_b(0)".to_owned());
+                            self.line(&format!("local unused5 = {} and ext_n(8)", v))
+                        }
+                        _ => self.line("local unused6 = (ext_b(1) or ext_n(2)) and ext_n(3)"),
+                    },
                     5 => {
                         let n = self.fresh(Ty::Any);
                         self.line(&format!("local {} = nil", n));
@@ -728,7 +770,18 @@ impl<'a> Gen<'a> {
                     }
                     3 => self.line("debug.profilebegin(\"section\")"),
                     4 => self.line("debug.profileend()"),
-                    5 => self.line("debug.profilebegin(ext_n(3))"),
+                    5 => match self.rng.below(3) {
+                        0 => self.line("debug.profilebegin(ext_n(3))"),
+                        1 => {
+                            // arguments whose evaluation order is observable: field reads through __index, a call, another read
+                            self.line("local probe = setmetatable({}, { __index = function(_, key) ext_p(\"read\", key) return true end })");
+                            self.line("assert(probe.first, ext_b(5), probe.second)");
+                        }
+                        _ => {
+                            self.line("local probe2 = setmetatable({}, { __index = function(_, key) ext_p(\"read2\", key) return 1 end })");
+                            self.line("debug.profilebegin(probe2.a, ext_n(6), probe2.b)");
+                        }
+                    },
                     6 => {
                         let r = self.fresh(Ty::Any);
                         self.line(&format!("local {} = debug.profilebegin(ext_b())", r));
@@ -744,8 +797,10 @@ impl<'a> Gen<'a> {
                                 self.line("assert(false, 1)");
                             }
                             1 => {
-                                self.line("local debug = { profilebegin = function(n) ext_p(\"local begin\", n) end }");
+                                self.line("local debug = { profilebegin = function(n) ext_p(\"local begin\", n) end, profileend = function() ext_p(\"local end\") return 4 end }");
                                 self.line("debug.profilebegin(\"x\")");
+                                self.line("debug.profileend()");
+                                self.line("ext_p(debug.profileend())");
                             }
                             _ => {
                                 self.line("local DEBUG = 5");
